@@ -482,8 +482,8 @@ def _decrement(f, x):
     return y is not None and y.op in ('add', 'sub') and any(o[0] == 'c' and (int(o[1]) < 0 if y.op == 'add' else int(o[1]) > 0) for o in y.a)
 
 
-def r7_1_overflow_width(ck, P):
-    R = ck.rule('C07-R1', 'every value assigned to an overflow_int_t variable is computed at that type\'s width (no narrower add/sub/mul hidden under the widening cast)', floor=8)
+def r7_1_overflow_width(ck, P, rid='C07-R1'):
+    R = ck.rule(rid, 'every value assigned to an overflow_int_t variable is computed at that type\'s width (no narrower add/sub/mul hidden under the widening cast)', floor=8)
     for u in units(P):
         for f in u.functions.values():
             for x in f.insts():
